@@ -425,7 +425,44 @@ fn uniform_script(seed: u64, policy: &str) -> Script {
     }
 }
 
+/// Idle queues with names of tens of kilobytes: the position entries one GC pass writes for them
+/// add up to more than a whole WAL file (the pass rolls over, possibly twice, on its own).
+fn longnames_script(seed: u64, policy: &str) -> Script {
+    let mut rng = Rng(seed.wrapping_mul(0x10_4E7).wrapping_add(9));
+    let idle = 2 + rng.below(3) as usize;
+    let mut queues = vec!["busy".to_string()];
+    for idx in 0..idle {
+        queues.push(format!("{idx}{}", "n".repeat(30_000 + rng.below(35_000) as usize)));
+    }
+    let mut steps = vec![Step::Create { q: 0 }];
+    for q in 1..=idle {
+        steps.push(Step::Create { q });
+    }
+    let mut payload_seed = seed << 20;
+    let mut next = 0u64;
+    for _ in 0..2 + rng.below(2) {
+        // enough to leave at least one file behind
+        for _ in 0..5 + rng.below(4) {
+            payload_seed += 1;
+            steps.push(Step::Append { q: 0, pos: None, batch: vec![Payload { seed: payload_seed, len: 20_000 + rng.below(20_000) as usize, embed: None }] });
+            next += 1;
+        }
+        steps.push(Step::Truncate { q: 0, p: next - 1 });
+        if rng.chance(30) {
+            steps.push(Step::Restart);
+        }
+    }
+    if rng.chance(50) {
+        steps.push(Step::Delete { q: 0 });
+    }
+    steps.push(Step::Restart);
+    Script { name: format!("longnames-{seed}"), policy: policy.to_string(), queues, anchors: anchors(), steps, expect: None }
+}
+
 pub fn generate(profile_name: &str, seed: u64, policy: &str) -> Script {
+    if profile_name == "longnames" {
+        return longnames_script(seed, policy);
+    }
     if profile_name == "uniform" {
         return uniform_script(seed, policy);
     }
